@@ -1,8 +1,8 @@
 INIT Init
 NEXT Next
 CONSTANTS
-  Dev = {"skip_only_function"}
-  Kinds = {"sig"}
+  Dev = {"attrs_to_container"}
+  Kinds = {"attrs"}
   Strict = FALSE
   Full = FALSE
   MaxCnt = 1
